@@ -299,14 +299,21 @@ class DAGRunConcurrentManager(DAGRunManagerLike):
             if not self.dag.graph.nodes[u].get(NodeField.is_oneof_child) or u == dest:
                 return True
 
-            # A child that is also an ordinary dependency of another node of this dag is an ordinary node for that node:
-            # otherwise the node would wait for a result that comes only if OneOf happens to try the child.
-            # (Being a case of a switch is not an ordinary dependency: the case is run only if it is selected. A
-            # consumer that is itself a child hidden from this dag does not count either.)
-            return any(
-                not self._is_head_of_oneof(v)
-                and self.dag.graph.edges[u, v].get(EdgeField.case_branch) is None
-                and _filter_node(v)
+            # A child that the destination needs as an ordinary dependency is an ordinary node of this dag: otherwise
+            # its consumer would wait for a result that comes only if OneOf happens to try the child.
+            return _is_needed(u)
+
+        def _is_needed(u: str) -> bool:
+            """
+            Is there a way from the node to the destination along ordinary dependencies: not as a case of a switch
+            (a case is run only if it is selected) and not as a OneOf child (a child is run only if OneOf tries it)
+            """
+            is_child = self.dag.graph.nodes[u].get(NodeField.is_oneof_child)
+
+            return u == dest or any(
+                self.dag.graph.edges[u, v].get(EdgeField.case_branch) is None
+                and not (is_child and self._is_head_of_oneof(v))
+                and _is_needed(v)
                 for v in self.dag.graph.successors(u)
             )
 
